@@ -22,7 +22,8 @@ RULE = (
 )
 ASSUMPTIONS = [
     "tables are either untyped or completely typed (partially typed tables: row choice not pinned by the property)",
-    "row patterns are mutually exclusive per addressing shape, so 'the row for its addressing mode' is unique",
+    "row patterns are mutually exclusive (concrete shapes, or - wildcard regime - rows wildcarding the whole address "
+    "that differ only in register type and AArch64 write-back mode), so 'the row for its addressing mode' is unique",
     "AArch64 tables declare pre_indexed/post_indexed per row as the shipped model files do; a post-indexed row is "
     "written without offset (as the parser reports such an operand)",
 ]
@@ -50,6 +51,19 @@ A_SHAPES = [s_ + (None,) for s_ in SHAPES[:4]] + [(True, False, 1, "pre"), (Fals
 @st.composite
 def tables(draw, isa, types, typed):
     rows = []
+    if draw(st.integers(0, 3)) == 0:
+        # wildcard regime (spr / m1 / v2 style): rows that wildcard the whole address and differ only in register
+        # type and, on AArch64, in write-back mode
+        wbs = [None] if isa == "x86" else draw(st.lists(st.sampled_from([None, "pre", "post"]), min_size=1, max_size=3,
+                                                       unique=True))
+        for wb in wbs:
+            sh = ["*", "*", "*"] + ([wb] if isa == "aarch64" else [])
+            if typed:
+                for t in types:
+                    rows.append({"shape": sh, "type": t, "uops": draw(uops_s())})
+            else:
+                rows.append({"shape": sh, "type": None, "uops": draw(uops_s())})
+        return rows
     shapes = draw(st.lists(st.sampled_from(SHAPES if isa == "x86" else A_SHAPES), min_size=0, max_size=5, unique=True))
     for sh in shapes:
         if typed:
@@ -180,9 +194,12 @@ def model_dicts(case):
         out = []
         for r in rs:
             ho, hi, sc = r["shape"][:3]
-            d = {"base": "gpr" if isa == "x86" else "x", "offset": "imd" if ho else None,
-                 "index": ("gpr" if isa == "x86" else "x") if hi else None, "scale": sc,
-                 "port_pressure": r["uops"]}
+            if ho == "*":
+                d = {"base": "*", "offset": "*", "index": "*", "scale": "*", "port_pressure": r["uops"]}
+            else:
+                d = {"base": "gpr" if isa == "x86" else "x", "offset": "imd" if ho else None,
+                     "index": ("gpr" if isa == "x86" else "x") if hi else None, "scale": sc,
+                     "port_pressure": r["uops"]}
             if isa == "aarch64":
                 wb = r["shape"][3] if len(r["shape"]) > 3 else None
                 d["pre_indexed"], d["post_indexed"] = wb == "pre", wb == "post"
@@ -215,8 +232,9 @@ def avg(uops):
 def pick_row(rows, default, op, rtype):
     ho, hi, sc = op[1], op[2], op[3]
     wb = op[4] if len(op) > 4 else None
-    m = [r for r in rows if r["shape"][0] == ho and r["shape"][1] == hi and
-         ((r["shape"][2] == 1) == (sc == 1)) and (r["shape"][3] if len(r["shape"]) > 3 else None) == wb]
+    m = [r for r in rows if (r["shape"][0] == "*" or (r["shape"][0] == ho and r["shape"][1] == hi and
+                                                         ((r["shape"][2] == 1) == (sc == 1))))
+         and (r["shape"][3] if len(r["shape"]) > 3 else None) == wb]
     typed = [r for r in m if r["type"] == rtype]
     if typed:
         return typed[0]["uops"], True
